@@ -25,6 +25,7 @@ from urllib3.exceptions import HTTPError, UnrewindableBodyError, MaxRetryError
 from urllib3.util.retry import Retry
 
 ALPHABET = "a\r\n\x00é€0"
+RALPHA = "a\r\n0"
 KINDS = ["none", "bytes", "str", "bytearray", "memoryview", "BytesIO", "StringIO", "file_no_tell", "file_bad_tell", "list",
          "generator", "empty_list", "array_H", "raw_short_reads", "list_of_str", "tuple"]
 METHODS = ["GET", "HEAD", "DELETE", "OPTIONS", "CONNECT", "TRACE", "POST", "PUT", "PATCH", "post", "get"]
@@ -133,7 +134,7 @@ def _frame_body(kind, text, i, j, offset, blocksize, mi, chunked, framing_hdr, c
     i, j, offset, blocksize, mi, framing_hdr, cv = [concretize(v) for v in (i, j, offset, blocksize, mi, framing_hdr, cv)]
     chunked = concretize(chunked)
     method = METHODS[mi]
-    body, want = make_body(kind, text, i, j, offset)
+    body, want = N._untraced(make_body)(kind, text, i, j, offset)      # concrete arguments: real objects, built natively
     netw = N.install(Collect())
     try:
         conn = HTTPConnection("h", 80, blocksize=blocksize)
@@ -148,7 +149,8 @@ def _frame_body(kind, text, i, j, offset, blocksize, mi, chunked, framing_hdr, c
             headers[nm] = "chunked"
             caller_framing = "te"
         try:
-            conn.request(method, "/p", body=body, headers=headers, chunked=chunked)
+            # every argument is a realised (solver-enumerated) concrete value: run the request outside the tracer
+            N._untraced(conn.request)(method, "/p", body=body, headers=headers, chunked=chunked)
         except (TypeError, ValueError, HTTPError) as e:
             return _fail("request(%s, body=%s %r) raised %r" % (method, KINDS[kind], text, e))
         tx = b"".join(s.tx for s in netw.socks)
@@ -205,7 +207,7 @@ def _frame_body(kind, text, i, j, offset, blocksize, mi, chunked, framing_hdr, c
 def c11_frame(kind: int, text: str, i: int, j: int, offset: int, blocksize: int, mi: int, chunked: bool, framing_hdr: int,
               cv: int) -> bool:
     """
-    pre: kind in P.kinds and len(text) <= P.maxlen and all(ch in ALPHABET for ch in text)
+    pre: kind in P.kinds and len(text) <= P.maxlen and all(ch in P.alpha for ch in text)
     pre: 0 <= i <= j <= len(text) and (kind in (9, 10, 14, 15) or (i == 0 and j == 0))
     pre: 0 <= offset <= len(text) and (kind in (5, 6) or offset == 0) and 1 <= blocksize <= P.maxblock and (kind in (5, 6, 7, 8, 13) or blocksize == 1)
     pre: not (chunked and framing_hdr == 1)
@@ -263,7 +265,7 @@ def _resend_body(front, kind, hi, text, offset):
     front, kind, hi, offset = [concretize(v) for v in (front, kind, hi, offset)]
     text = concretize(text)
     hist = HISTORIES[hi]
-    body, want = make_body(kind, text, 1, 2, offset)
+    body, want = N._untraced(make_body)(kind, text, 1, 2, offset)
     peer = ScriptPeer(hist)
     N.install(peer)
     E.install_clock()
@@ -273,9 +275,9 @@ def _resend_body(front, kind, hi, text, offset):
         resp = None
         try:
             if front == 0:
-                resp = HTTPConnectionPool("h", 80).urlopen("PUT", "/p", body=body, retries=retries, assert_same_host=False)
+                resp = N._untraced(HTTPConnectionPool("h", 80).urlopen)("PUT", "/p", body=body, retries=retries, assert_same_host=False)
             else:
-                resp = PoolManager().urlopen("PUT", "http://h/p", body=body, retries=retries)
+                resp = N._untraced(PoolManager().urlopen)("PUT", "http://h/p", body=body, retries=retries)
         except HTTPError as e:
             exc = e
         attempts = [x for x in peer.log if x[0] != "parse-error"]
@@ -321,7 +323,7 @@ def _resend_body(front, kind, hi, text, offset):
 def c11_resend(front: int, kind: int, hi: int, text: str, offset: int) -> bool:
     """
     pre: front in P.fronts and kind in P.kinds and hi in P.hists and (front == 1 or hi != 7)
-    pre: 1 <= len(text) <= P.maxlen and all(ch in "a\\r\\n0" for ch in text)
+    pre: 1 <= len(text) <= P.maxlen and all(ch in RALPHA for ch in text)
     pre: 0 <= offset <= 1 and (kind in (5, 6) or offset == 0)
     post: _
     """
@@ -333,23 +335,26 @@ def JOBS(tier):
     t = 150 if quick else 900
     jobs = []
     for kind in range(len(KINDS)):
+        rich = kind in (0, 1, 5, 9)
         jobs.append({"func": "c11_frame", "timeout": t, "path_timeout": 60,
-                     "part": {"kinds": [kind], "maxlen": 2 if quick else 3, "maxblock": 3 if quick else 4,
-                              "methods": [0, 6, 9] if (quick and kind) else list(range(len(METHODS))), "hdrs": kind in (0, 1, 2, 5, 9, 10) or not quick}})
+                     "part": {"kinds": [kind], "maxlen": 2 if quick else 3, "maxblock": 2 if quick else 4,
+                              "alpha": "a\n\u20ac" if quick else ALPHABET,
+                              "methods": list(range(len(METHODS))) if (kind == 0 or not quick) else [0, 6],
+                              "hdrs": rich or not quick}})
     for front in (0, 1):
         for hi in range(len(HISTORIES)):
             if front == 0 and hi == 7:
                 continue
             jobs.append({"func": "c11_resend", "timeout": t, "path_timeout": 90,
-                         "part": {"fronts": [front], "hists": [hi], "kinds": list(range(len(KINDS))), "maxlen": 2 if quick else 3}})
+                         "part": {"fronts": [front], "hists": [hi], "kinds": list(range(len(KINDS))), "maxlen": 1 if quick else 2}})
     return jobs
 
 
 EVIDENCE = {
     "bounds": {"quick": "16 body kinds (None, bytes, str, bytearray, memoryview, BytesIO, StringIO, read-only file, file whose tell fails, "
                         "list/tuple/generator of chunks, list of str chunks, empty list, array('H'), raw short-reading stream) x content of "
-                        "<= 2 characters over {a, CR, LF, NUL, e-acute, euro, 0} x chunk cut points x start offset x blocksize 1..3 x 3 "
-                        "methods (all 11 for body-less) x chunked flag x caller framing header in 3 casings; re-sending: 10 histories x 16 "
+                        "<= 2 characters over {a, LF, euro} x chunk cut points x start offset x blocksize 1..2 x {GET, POST} "
+                        "(all 11 methods for body-less) x chunked flag x caller framing header in 3 casings; re-sending: 10 histories x 16 "
                         "kinds x pool / PoolManager",
                "thorough": "content <= 3 characters, all 11 methods, blocksize <= 4"},
     "outside": ["bodies larger than a few bytes (size classes around the 16 KiB default blocksize are represented by blocksize 1..4 "
